@@ -152,9 +152,8 @@ fn process(id: &str, text: &str) -> Vec<String> {
                         match m.expand() {
                             Err(e) => out.push(format!("EXPAND ERR {e}")),
                             Ok(ts) => {
-                                for t in canonical_tokens(ts, m.states.len(), m.hierarchy.lookup.len()) {
-                                    out.push(format!("T {t}"));
-                                }
+                                let toks = canonical_tokens(ts, m.states.len(), m.hierarchy.lookup.len());
+                                out.push(format!("T\t{}", toks.join("\t")));
                             }
                         }
                     }
